@@ -245,8 +245,13 @@ private:
     // ---------------------------------------------------------------------------
     enum Constants
     {
+#if defined(XERCES_VERIF_HOOKS) && defined(XERCES_VERIF_CHARBUF) && defined(XERCES_VERIF_RAWBUF)
+        kCharBufSize        = XERCES_VERIF_CHARBUF
+        , kRawBufSize       = XERCES_VERIF_RAWBUF
+#else
         kCharBufSize        = 16 * 1024
         , kRawBufSize       = 48 * 1024
+#endif
     };
 
 
